@@ -106,6 +106,28 @@ def _check_labels(sh, kind, case, data, thr, conn8, labs, n_ret, want, n_want):
     return True
 
 
+class _quiet_fd1(object):
+    _null = None
+
+    def __enter__(self):
+        import sys
+        sys.stdout.flush()
+        if _quiet_fd1._null is None:
+            _quiet_fd1._null = os.open(os.devnull, os.O_WRONLY)
+        self.saved = os.dup(1)
+        os.dup2(_quiet_fd1._null, 1)
+
+    def __exit__(self, *a):
+        # the C library buffers its stdout: flush it while fd 1 still points at /dev/null
+        try:
+            import ctypes
+            ctypes.CDLL(None).fflush(None)
+        except Exception:
+            pass
+        os.dup2(self.saved, 1)
+        os.close(self.saved)
+
+
 def _dense_case(sh, cI, li_obj, img_bits, shp, vt, conn8, full_oracle=True):
     lo, hi, thr = VT[vt]
     mask = img_bits
@@ -120,11 +142,16 @@ def _dense_case(sh, cI, li_obj, img_bits, shp, vt, conn8, full_oracle=True):
     labs, nrets = [], []
     for p in POISONS:
         l = np.full(shp, p, np.int32)
-        n = cI.connectedpixels(data, l, thr, con8=int(conn8))
+        if p == POISONS[1]:
+            # the second call asks for the progress messages too (they go to the C stdout, sent to /dev/null here): same answer
+            with _quiet_fd1():
+                n = cI.connectedpixels(data, l, thr, con8=int(conn8), verbose=1)
+        else:
+            n = cI.connectedpixels(data, l, thr, con8=int(conn8))
         labs.append(l)
         nrets.append(n)
     if nrets[0] != nrets[1]:
-        sh.violation("connectedpixels:poison-dependent-count", case, {"n": nrets})
+        sh.violation("connectedpixels:count-depends-on-buffer-content-or-verbose-flag", case, {"n": nrets})
         return
     if not np.array_equal(data, np.where(mask, np.float32(hi), np.float32(lo)).astype(np.float32)):
         sh.violation("connectedpixels:image-modified", case, {"data": data})
@@ -390,7 +417,7 @@ def _run_catalogue(desc):
                     nr.append(cI.connectedpixels(data, l, thr, con8=int(conn8)))
                     labs.append(l)
                 if nr[0] != nr[1]:
-                    sh.violation("connectedpixels:poison-dependent-count", case, {"n": nr})
+                    sh.violation("connectedpixels:count-depends-on-buffer-content-or-verbose-flag", case, {"n": nr})
                 else:
                     _check_labels(sh, "connectedpixels", case, data, thr, conn8, labs, nr[0], want, n_want)
                 sh.evaluations += 1
